@@ -139,6 +139,7 @@ func main() {
 					}
 				}()
 				props[id].Run(c)
+				runED(c)
 				c.finish()
 			}()
 			r.Obs = append(r.Obs, c.Obs...)
